@@ -106,10 +106,18 @@ def run_case(case):
         if case["fam"] == "orient-exh":
             base = scen.base_tissue(rng, fam, ncells=int(rng.integers(12, 24)))
             at = base.sub(tissue.random_connected_subset(rng, base, int(rng.integers(4, 8))))
+        elif case["seed"][2] % 5 == 4:
+            # axis-aligned lattice whose OUTLINE stays straight (runs of exactly collinear lowest / left-most vertices) while
+            # the internal interfaces are curved, so that pressures are not trivially zero
+            fam = ["lat-square", "lat-brick", "lat-hex", "lat-diamond"][int(rng.integers(4))]
+            at = scen.base_tissue(rng, fam)
+            at.PHI = {k: (float(rng.uniform(-0.4, 0.4)) if len(cs) == 2 else 0.0) for k, cs in at.E.items()}
+            at.T = {k: float(rng.uniform(0.5, 1.5)) for k in at.E}
+            hist["lattice-with-straight-outline"] = hist.get("lattice-with-straight-outline", 0) + 1
         else:
             at = scen.base_tissue(rng, fam, ncells=int(rng.integers(8, 45)))
             at, _ = scen.maybe_sub(rng, at, p=0.3, min_cells=3)
-        ks = {k: int(rng.integers(0 if fam == "vor" else 1, 13)) for k in at.E}
+        ks = {k: int(rng.integers(0 if fam == "vor" else 1, 13 if not fam.startswith("lat-") else 5)) for k in at.E}
         fit = ["dlite", "taubinSVD"][int(rng.integers(2))]
         # lsq_linear is specified for consistent systems only (C05): use it on equilibrium tissues
         method = [None, None, "lsq_linear"][int(rng.integers(3))] if fam != "arc" else None
